@@ -7,7 +7,7 @@
 //           (V = RnsToRing(r), P = product(), V2 = second RnsToRing on the same object)
 //   rns <hist> <dom> n p1..pn r1..rn a               RNSsystem<Integer, Dom>
 //        -> m0..m(n-1) | V | a mod p_i ... | ck_k (k=1..n-1) | V2
-//   fixed <hist> n p1..pn r1..rn                     RNSsystemFixed<Integer>      -> V
+//   fixed <hist> <tt> n p1..pn r1..rn                RNSsystemFixed<Integer>, residues in a vector<tt>  -> V
 //   cra <dom> <reduce 1|0> M D A e                   ChineseRemainder<IntegerDom,Dom,reduce>  -> res
 //   poly <hist> p n a1..an r1..rn d c0..cd           Poly1CRT<Modular<int64_t>> over GF(p)
 //        -> coefficients of RnsToRing(r) (low degree first, degree-stripped) | evaluations of the polynomial c at a_i
@@ -84,17 +84,28 @@ static std::string run_int(const std::string& hist, const IV& P, const IV& R, co
     std::ostringstream o;
     IRNS::array mix;
     S->RnsToMixedRadix(mix, res);
-    for (size_t i = 0; i < n; ++i) o << mix[i] << " ";
+    for (size_t i = 0; i < mix.size(); ++i) o << mix[i] << " ";
     o << "| ";
-    Integer V; S->RnsToRing(V, res); o << V << " | ";
+    Integer V("987654321987654321987654321"); S->RnsToRing(V, res); o << V << " | ";
     o << S->product() << " | ";
-    IRNS::array rr; S->RingToRns(rr, a);
+    IRNS::array rr(n + 2, Integer(77)); S->RingToRns(rr, a);        // wrong size on entry: must be resized
     for (size_t i = 0; i < rr.size(); ++i) o << rr[i] << " ";
     o << "| ";
     const IRNS::array& ck = S->Reciprocals();
     for (size_t k = 1; k < ck.size() && k < n; ++k) o << nnmod(ck[k], P[k]) << " ";
     o << "| ";
     Integer V2; S->RnsToRing(V2, res); o << V2;
+    // accessors, and MixedRadixToRing called directly on digits held in a larger array
+    o << " | " << S->NumOfPrimes() << " ";
+    for (size_t i = 0; i < n; ++i) o << S->ith(i) << " ";
+    const IRNS::array& pr = S->Primes();
+    o << "| ";
+    for (size_t i = 0; i < pr.size(); ++i) o << pr[i] << " ";
+    o << "| ";
+    for (size_t k = 1; k < n; ++k) o << nnmod(S->reciprocal(k), P[k]) << " ";
+    o << "| ";
+    IRNS::array mix2(n + 3, Integer(5)); S->RnsToMixedRadix(mix2, res);
+    Integer V3(-4); S->MixedRadixToRing(V3, mix2); o << V3;
     delete S; delete aux; delete aux2;
     return o.str();
 }
@@ -127,25 +138,37 @@ static std::string run_rns(const std::string& hist, const IV& P, const IV& R, co
     Elements mix;
     S->RnsToMixedRadix(mix, E);
     Integer t;
-    for (size_t i = 0; i < n; ++i) o << D[i].convert(t, mix[i]) << " ";
+    for (size_t i = 0; i < mix.size(); ++i) o << D[i].convert(t, mix[i]) << " ";
     o << "| ";
-    Integer V; S->RnsToRing(V, E); o << V << " | ";
-    Elements rr; S->RingToRns(rr, a);
-    for (size_t i = 0; i < rr.size(); ++i) o << D[i].convert(t, rr[i]) << " ";
+    Integer V("987654321987654321987654321"); S->RnsToRing(V, E); o << V << " | ";
+    Elements rr(n + 2); S->RingToRns(rr, a);                         // wrong size on entry: must be resized
+    for (size_t i = 0; i < rr.size(); ++i) o << D[i < n ? i : 0].convert(t, rr[i]) << " ";
     o << "| ";
     const Elements& ck = S->Reciprocals();
     for (size_t k = 1; k < ck.size() && k < n; ++k) o << D[k].convert(t, ck[k]) << " ";
     o << "| ";
     Integer V2; S->RnsToRing(V2, E); o << V2;
+    // accessors, and MixedRadixToRing called directly
+    o << " | " << S->size() << " ";
+    for (size_t i = 0; i < n; ++i) o << Integer(S->ith(i).characteristic()) << " ";
+    const Domains& pr = S->Primes();
+    o << "| ";
+    for (size_t i = 0; i < pr.size(); ++i) o << Integer(pr[i].characteristic()) << " ";
+    o << "| ";
+    for (size_t k = 1; k < n; ++k) o << D[k].convert(t, S->reciprocal(k)) << " ";
+    o << "| ";
+    Integer V3(-4); S->MixedRadixToRing(V3, mix); o << V3;
     delete S; delete aux; delete aux2;
     return o.str();
 }
 
 // ------------------------------------------------------------------ RNSsystemFixed<Integer>
-static std::string run_fixed(const std::string& hist, const IV& P, const IV& R) {
+template <class TT>
+static std::string run_fixed(const std::string& hist, const IV& P, const IV& R0) {
     typedef RNSsystemFixed<Integer> FX;
+    std::vector<TT> R = castvec<TT>(R0);           // RnsToRing is a template over the residue container
     std::ostringstream o;
-    Integer V, dump;
+    Integer V("987654321987654321987654321"), dump;
     if (hist == "fresh") { FX S(P); S.RnsToRing(V, R); }
     else if (hist == "reuse") { FX S(P); IV ones(P.size(), Integer(1)); S.RnsToRing(dump, ones); S.RnsToRing(V, R); }
     else if (hist == "assignwarm") {
@@ -243,12 +266,15 @@ int main() {
                     else out = "BAD-DOM";
                 }
             } else if (t[0] == "fixed") {
-                const std::string hist = t[1];
-                size_t n = (size_t)atol(t[2].c_str());
-                IV P, R; size_t k = 3;
+                const std::string hist = t[1], sub = t[2];
+                size_t n = (size_t)atol(t[3].c_str());
+                IV P, R; size_t k = 4;
                 for (size_t i = 0; i < n; ++i) P.push_back(parseI(t[k++]));
                 for (size_t i = 0; i < n; ++i) R.push_back(parseI(t[k++]));
-                out = run_fixed(hist, P, R);
+                if (sub == "Integer") out = run_fixed<Integer>(hist, P, R);
+                else if (sub == "int64") out = run_fixed<int64_t>(hist, P, R);
+                else if (sub == "uint64") out = run_fixed<uint64_t>(hist, P, R);
+                else out = "BAD-TT";
             } else if (t[0] == "cra") {
                 const std::string dom = t[1]; bool red = t[2] == "1";
                 Integer M = parseI(t[3]), D = parseI(t[4]), A = parseI(t[5]), e = parseI(t[6]);
